@@ -27,7 +27,8 @@ RULE = ('directed: every public callable of the ten modules (enumerated from the
         'non-trivial = a call whose argument is a writable float ndarray, a table, or a repeated / re-formed call (the tests pass '
         'fresh literals once); distinct = (callable, spec, form, seed)'
         " Round 3: whole numbers as int64 arrays / lists of ints vs floats; labelled tables and series with their columns / labels in another order (results compared by label); tables whose time index is unnamed or named otherwise (caller's Index object must keep its name); one call history per specification: f(a), a overwritten IN PLACE, f(a) against f(fresh copy) computed beforehand; filter re-runs reuse the same Measurement objects; EstimationModel constructed from writable arrays with negative (disable) marks."
-        ' Round 4: shared state is decided behaviourally - class poison (reference results of every module-level function, then every function called and its returned arrays overwritten by the caller, then every function again: bit-identical) incl. single / scalar paths and zero F / zero Q / zero dt / tiny Q; class threads (4 threads, switch interval 1 us, own argument copies, every result vs the sequential one); a change of module-level state by itself is counted in the evidence, not reported; measurement tables extending beyond the processed span; module / class-level scalars in the state snapshot.')
+        ' Round 4: shared state is decided behaviourally - class poison (reference results of every module-level function, then every function called and its returned arrays overwritten by the caller, then every function again: bit-identical) incl. single / scalar paths and zero F / zero Q / zero dt / tiny Q; class threads (4 threads, switch interval 1 us, own argument copies, every result vs the sequential one); a change of module-level state by itself is counted in the evidence, not reported; measurement tables extending beyond the processed span; module / class-level scalars in the state snapshot.'
+        ' Round 5: every prefix (1, 2, 3, 4, 5, 8, 9, 16, 17, n-1) of a stack of 19 gives the prefix of the full result; one number as float / numpy.float64 / 0-d array / 1-element array / 1-element list; class order - the registry evaluated in reverse order in a fresh process must give bit-identical results (sha256); 2-D angle arrays (Fortran order).')
 ASSUMPTIONS = ['documented exceptions: estimate state (transform, bias) of EstimationModel objects handed to a filter; Integrator / '
                'EstimationModel / Parameters / Turntable methods may change their own object but never their arguments',
                'Turntable.generate_imu is excluded: it raises at baseline under scipy 1.18 (test_Turntable fails in BASELINE.json)',
